@@ -8,7 +8,7 @@ PROPS = {
     'C19': ['contracts.settings', 'contracts.m2_server'],
     'C20': ['contracts.suites', 'contracts.m2_client'],
     'C03': ['contracts.suites', 'contracts.m2_client', 'contracts.m2_server'],
-    'C05': ['contracts.m2_client13', 'contracts.m2_client', 'contracts.m2_posthandshake', 'contracts.m2_server'],
+    'C05': ['contracts.m2_client13', 'contracts.m2_client', 'contracts.m2_posthandshake', 'contracts.m2_server', 'contracts.m2_signverify'],
     'C04': ['contracts.m2_client', 'contracts.m2_getmsg', 'contracts.m2_server'],
     'C06': ['contracts.m2_client', 'contracts.m2_getmsg', 'contracts.defragmenter'],
     'C13': ['contracts.m2_client', 'contracts.m2_posthandshake', 'contracts.m2_server', 'contracts.small_extras'],
@@ -20,4 +20,10 @@ PROPS = {
     'C17': ['contracts.m2_recordlayer', 'contracts.m2_getmsg', 'contracts.m2_posthandshake', 'contracts.transport'],
     'C11': ['contracts.c12_cbc_check', 'contracts.rsa', 'contracts.m2_server', 'contracts.small_extras'],
     'C10': ['contracts.c12_cbc_check', 'contracts.rsa', 'contracts.kex', 'contracts.m2_signverify'],
+}
+
+#: tasks that take minutes on their own (measured): run in the thorough tier only.  Their functions stay covered in
+#: the quick tier by the differential runs (specs/ciphers.py) and by the cheaper contracts of the same module.
+QUICK_SKIP = {
+    'CHACHA20_POLY1305.seal', 'ccm_8-open-seal', 'chacha20poly1305-open-seal', 'AESCCM._cbcmac_calc', 'CHACHA20_POLY1305.open',
 }
